@@ -503,6 +503,77 @@ def rule_eof(rep):
         )
 
 
+def _eval_order(e, env):
+    """evaluate a comparison tree over integer stand-ins (an ordering valuation)"""
+    if isinstance(e, ast.BoolOp):
+        vals = [_eval_order(v, env) for v in e.values]
+        return all(vals) if isinstance(e.op, ast.And) else any(vals)
+    if isinstance(e, ast.UnaryOp) and isinstance(e.op, ast.Not):
+        return not _eval_order(e.operand, env)
+    if isinstance(e, ast.Compare):
+        left = _eval_order(e.left, env)
+        for op, c in zip(e.ops, e.comparators):
+            right = _eval_order(c, env)
+            ok = {ast.Lt: left < right, ast.LtE: left <= right, ast.Gt: left > right, ast.GtE: left >= right,
+                  ast.Eq: left == right, ast.NotEq: left != right}.get(type(op))
+            if ok is None:
+                raise AnalysisError(f"unsupported comparison in {unparse(e)}")
+            if not ok:
+                return False
+            left = right
+        return True
+    if isinstance(e, ast.BinOp) and isinstance(e.op, (ast.Add, ast.Sub)):
+        a, b = _eval_order(e.left, env), _eval_order(e.right, env)
+        return a + b if isinstance(e.op, ast.Add) else a - b
+    if isinstance(e, ast.Constant) and isinstance(e.value, int):
+        return e.value
+    t = unparse(e)
+    if t in env:
+        return env[t]
+    raise AnalysisError(f"unknown quantity `{t}` in the line selection test")
+
+
+def rule_context_line(rep):
+    with rep.rule(
+        "R10.context-line",
+        "the context line rendered with an error is the line whose half-open span [start, start + "
+        "len(line)) contains the position (decided over all orderings of the position against the "
+        "line's bounds); the column is the offset from the line start",
+    ) as r:
+        f = rep.repo.func("parglare.exceptions.get_line_col_at_position")
+        pos = f.params[1]
+        loop = next((s for s in f.body if isinstance(s, ast.For)), None)
+        r.need(loop is not None, "get_line_col_at_position: line loop not found")
+        sel = next((s for s in loop.body if isinstance(s, ast.If) and any(isinstance(x, ast.Return) for x in ast.walk(s))), None)
+        r.need(sel is not None, "get_line_col_at_position: selection test not found")
+        acc = [s for s in loop.body if isinstance(s, ast.AugAssign) and isinstance(s.op, ast.Add)]
+        r.need(len(acc) == 1 and isinstance(acc[0].target, ast.Name) and unparse(acc[0].value) == "len(line)",
+               "get_line_col_at_position: running line start is not advanced by len(line)")
+        cur = acc[0].target.id
+        L = 10
+        for name, p in (("before the line", -5), ("first character", 0), ("inside", 5), ("first character of the next line", L), ("beyond", L + 5)):
+            got = _eval_order(sel.test, {pos: p, cur: 0, "len(line)": L})
+            want = 0 <= p < L
+            r.check(
+                got == want,
+                f"position {name}: {'selected' if want else 'not selected'}",
+                "get_line_col_at_position:interval",
+                f"for a position that is the {name} (line start {cur}=0, len(line)={L}, {pos}={p}) the line is "
+                f"{'selected' if got else 'skipped'}; needed {'selected' if want else 'skipped'}: the rendered context "
+                "shows the wrong line (an error at column 0 is shown at the end of the previous line)",
+                node=sel,
+            )
+        ret = next(x for x in ast.walk(sel) if isinstance(x, ast.Return))
+        elts = ret.value.elts if isinstance(ret.value, ast.Tuple) else []
+        r.check(
+            len(elts) >= 2 and unparse(elts[0]) == unparse(loop.target.elts[0]) and unparse(elts[1]) in (f"{pos} - {cur}",),
+            "returns (line index, position - line start, ...)",
+            "get_line_col_at_position:column",
+            f"get_line_col_at_position returns {unparse(ret.value)[:70]}",
+            node=ret,
+        )
+
+
 def check(rep):
     rep.explanation = (
         "C10 (partial): exception-flow analysis over the call graph of each parse(): every raise "
@@ -518,3 +589,12 @@ def check(rep):
     rule_expected(rep)
     rule_render(rep)
     rule_eof(rep)
+    rule_context_line(rep)
+    from .C02 import rule_all_parents, rule_link_key, rule_link_no_drop, rule_revisit
+
+    # symbols_expected is computed by running the GLR reducer on the farthest heads: every rule that makes
+    # the reducer complete is necessary for 'exactly the terminals that could legally come next'
+    rule_link_no_drop(rep)
+    rule_revisit(rep)
+    rule_link_key(rep)
+    rule_all_parents(rep)
